@@ -190,6 +190,9 @@ func CalleeName(in ssa.Instruction) string {
 	}
 	cc := c.Common()
 	if cc.IsInvoke() {
+		if m, _ := devirtualise(cc); m != nil {
+			return FnName(m)
+		}
 		return "invoke:" + short(types.TypeString(cc.Value.Type(), nil)) + "." + cc.Method.Name()
 	}
 	if f := cc.StaticCallee(); f != nil {
